@@ -26,7 +26,7 @@ TEXT = {
     "C04": ("seeded histories with injected panics (destructor / init closure / iteration closure) and re-entrant callbacks as simulator-owned seams; reference model continues after every fault; Miri as exact deadlock/UB oracle",
             "Fault-injecting deterministic simulation: fault kinds fire at PRNG-chosen invocations, the model treats a panicking destructor as 'destroyed once' and a panicking insert_with as 'nothing inserted', and every later operation is checked. Known findings are reproduced by directed modes and excluded from the ordinary generator.",
             "Native hang detection uses a wall-clock bound under a one-runner schedule; exact under Miri."),
-    "C05": ("Miri as seeded deterministic scheduler (preemption + C11 weak memory) over real sender/receiver threads with harness oracles (outcome model, exactly-once payload, lost-wake-up check at quiescence); op-granular native interleavings in bulk",
+    "C05": ("Miri as seeded deterministic scheduler (preemption + C11 weak memory) over real sender/receiver threads with harness oracles (outcome model, exactly-once payload, lost-wake-up check at quiescence); op-granular native interleavings in bulk, with the waker callbacks as a scheduling seam (the sender's whole action placed re-entrantly inside a chosen clone/drop callback, or the receiver held there until the sender is done)",
             "Seeded search over schedules and weak-memory outcomes of the real state machine, dev and release profiles, three preemption rates; the lost-wake-up clause is stated without timing (after both threads are joined, the waker of a last-Pending poll must have been woken and the next poll must be Ready).",
             "Miri's weak-memory emulation covers a subset of C11 behaviours (no load buffering); schedules are sampled, not enumerated."),
     "C06": ("Miri as seeded scheduler + vector-clock data-race detector: the release (dealloc / harness poison write at the H2 notification / slot re-initialisation by rental traffic) conflicts with every earlier access of the other endpoint unless it happens-before; release count, pool/lake emptiness and leak checks at quiescence",
@@ -35,7 +35,7 @@ TEXT = {
     "C07": ("seeded single-threaded programs where every waker callback (clone/wake/wake_by_ref/drop) is a simulator seam performing nested endpoint operations; outcome/exactly-once/release/waker-accounting oracles; embedded storage poisoned at release; Miri sample as UAF/aliasing oracle",
             "Seeded search over re-entrant programs to nesting depth 3 over boxed/embedded/pooled storage; native bulk plus Miri sample.",
             "Callbacks can only perform what safe code could (the endpoint not borrowed by the running operation)."),
-    "C08": ("Miri-scheduled real threads produce stamped invoke/response histories checked for linearizability (Wing-Gong, nondeterministic sequential spec) incl. a quiescent drain phase; native sequential histories for local variants and the awaiter set against a list model",
+    "C08": ("Miri-scheduled real threads produce stamped invoke/response histories checked for linearizability (Wing-Gong, nondeterministic sequential spec) incl. a quiescent drain phase; native sequential histories for local variants and the awaiter set against a list model; re-entrant single-thread modes in which every waker callback (wake/clone/drop) performs nested operations on the same event, their intervals nested inside the outer operation's and checked by the same linearizability search",
             "Seeded search over schedules/weak memory with a linearizability checker over the recorded history; 'latest waker invoked' checked at quiescence.",
             "Histories are capped (<= 14 operations, <= 3 threads); stamps are Relaxed RMWs (no added happens-before)."),
     "C09": ("seeded input generation against an independent brute-force oracle; the only simulated nondeterminism is the library's own entropy (rand::rng, foldhash seed), fixed by the Miri seed so each case replays exactly",
@@ -53,16 +53,16 @@ TEXT = {
     "C13": ("Miri-scheduled reader/writer/initialiser threads over fake memory regions with stamped writes/reads; own-write, per-writer monotonicity and quiescent-convergence oracles; panicking Clone as injected fault",
             "Seeded search over schedules incl. racing region initialisation (arc-swap and rsevents interpreted).",
             "Fake hardware stub (many_cpus::fake); stamps are Relaxed RMWs."),
-    "C14": ("Miri-scheduled spawner threads, real worker threads and pool drop with cooperative yield points (hook H4); run-once, processor-affinity and handle-resolution oracles; liveness = no deadlock reported by the interpreter",
+    "C14": ("Miri-scheduled spawner threads, real worker threads and pool drop with cooperative yield points (hook H4); run-once, processor-affinity and handle-resolution oracles; dependent-task scenarios spawned exactly when every worker is parked; liveness = no deadlock reported by the interpreter",
             "Seeded search over schedules of spawn / lazy worker start-up / shutdown; lost wake-ups and unresolved handles surface as interpreter-detected deadlock, no timeouts.",
             "Throughput is low (worker threads interpreted); H4 yield points bias the scheduler toward the interesting windows."),
-    "C15": ("seeded operation histories with simulator-owned futures and parent wakers vs a reference deque and wake/poll causality oracle; Miri-scheduled cross-thread wake/clone/drop of the hand-written RawWaker",
+    "C15": ("seeded operation histories with simulator-owned futures and parent wakers vs a reference deque and wake/poll causality oracle; Miri-scheduled cross-thread wake/clone/drop of the hand-written RawWaker, with data published before each wake that the woken future's poll must observe",
             "Seeded search over histories (native bulk) and schedules (Miri) with drop-exactly-once and leak/UAF oracles.",
             "Contained futures and wakers are simulator-owned."),
     "C16": ("seeded observe/batch/push/report/thread-exit histories on real threads via the op-granular coordinator vs reference aggregation; Miri-scheduled concurrent reports checked as monotone lower bounds",
             "Seeded search over histories, bucket configurations (>63 buckets, extreme bounds) and schedules; quiescent reports must equal the model exactly.",
             "Event names are unique per run because registries are process-global."),
-    "C17": ("every benchmark callback is a simulator seam that records, may stall on a gate and may panic; strict count/grouping/barrier oracles; under faults: no callback frame live or entered after execute returns/unwinds (flag oracle natively, dangling-access oracle under Miri)",
+    "C17": ("every benchmark callback is a simulator seam that records, may stall on a gate and may panic; strict count/grouping/barrier oracles; under faults: no callback frame live or entered after execute returns/unwinds (flag oracle natively, dangling-access oracle under Miri), including aftermath rounds on a pool that lost workers in an earlier caught panic",
             "Fault-injecting deterministic simulation over fake hardware 1-16 processors; panics and stalls at PRNG-chosen (thread, phase, iteration).",
             "Worker/group assignment is symmetric up to start-up order, which the trace hash excludes."),
     "C18": ("allocator seam (Allocator<SimAlloc>) logging every request and optionally returning null; scripted alloc/realloc/dealloc histories over 1-16 simulated threads with nested/overlapping spans vs the log; installed-global-allocator binary for the bootstrap re-entrancy guard",
